@@ -1,1 +1,314 @@
-/-! C05 — property theorems (stub; no obligations yet) -/
+import Ypv.Lemmas.Merge
+/-!
+# C05 — merging two documents yields the policy-defined result for every option mix
+
+Theorems about `Ypv.Merge.mergeWith` (the model of `Merger.merge_with` at the root path as the
+code stands after the proposed fixes C05-1 … C05-5), for **every** configuration `cfg`
+(command-line values, `[defaults]`, `[rules]`, `[keys]`, any `typed_value` function — universally
+quantified, not enumerated), every left-hand and right-hand document.
+-/
+namespace Ypv.C05
+open Ypv Ypv.Merge Ypv.Merge.Spec
+
+/-! ## merge_total -/
+
+theorem listToSet_nc : ∀ (items : List Node) (acc : List Key), NoCrash (listToSet items acc)
+  | [], acc => by simp only [listToSet]; exact NoCrash.ok _
+  | ele :: rest, acc => by
+    simp only [listToSet]
+    cases ele with
+    | scalar a v =>
+      simp only [setAdd]
+      cases scalarKey? v with
+      | none => exact NoCrash.oom
+      | some k => exact listToSet_nc rest _
+    | seq a xs => exact NoCrash.merge
+    | map a xs => exact NoCrash.merge
+    | set a xs => exact NoCrash.merge
+
+theorem mergeDicts_nc (env : Env) (lv par : Node) (res : List (Key × Node)) :
+    NoCrash (mergeDicts env lv par res) :=
+  (dictWrap_ok lv (dictLoop env par res) (dictLoop_nc env par res)).1
+
+theorem rootTagSync_nc (l : Node) (x : Except MErr Node) (h : NoCrash x)
+    (hs : ∀ m, x = .ok m → l.isScalar = false) : NoCrash (rootTagSync l x) := by
+  unfold rootTagSync
+  cases x with
+  | error e => exact h
+  | ok m =>
+    have := hs m rfl
+    cases l <;> simp_all [Node.isScalar, tagOf] <;> exact NoCrash.ok _
+
+theorem insertDict_nc (env : Env) (l : Node) (ra : Option Str) (res : List (Key × Node)) :
+    NoCrash (insertDict env l ra res) ∧ ∀ m, insertDict env l ra res = .ok m → l.isScalar = false := by
+  unfold insertDict
+  cases l with
+  | scalar a v => exact ⟨NoCrash.merge, by intro m h; cases h⟩
+  | set a xs => exact ⟨NoCrash.merge, by intro m h; cases h⟩
+  | seq a xs => exact ⟨(mergeLists_nc env _ none _ _).1, fun _ _ => rfl⟩
+  | map a xs =>
+    refine ⟨?_, fun _ _ => rfl⟩
+    simp only
+    cases hm : hashMode env ⟨.map ra res, none, none⟩ with
+    | error e => exact NoCrash.of_conf (hashMode_conf env _) hm
+    | ok mode => cases mode <;> first | exact NoCrash.ok _ | exact mergeDicts_nc env _ _ _
+
+theorem insertList_nc (env : Env) (l : Node) (ra : Option Str) (ritems : List Node) :
+    NoCrash (insertList env l ra ritems) ∧ ∀ m, insertList env l ra ritems = .ok m → l.isScalar = false := by
+  unfold insertList
+  cases l with
+  | scalar a v => exact ⟨NoCrash.merge, by intro m h; cases h⟩
+  | map a xs => exact ⟨NoCrash.merge, by intro m h; cases h⟩
+  | seq a xs => exact ⟨(mergeLists_nc env _ ra _ _).1, fun _ _ => rfl⟩
+  | set a xs =>
+    refine ⟨?_, fun _ _ => rfl⟩
+    simp only
+    cases hs : listToSet ritems [] with
+    | error e => intro k hk; cases hk; exact listToSet_nc ritems [] k hs
+    | ok ms => exact (mergeSets_ok env _ none ms _).1
+
+theorem insertSet_nc (env : Env) (l : Node) (ra : Option Str) (rms : List Key) :
+    NoCrash (insertSet env l ra rms) ∧ ∀ m, insertSet env l ra rms = .ok m → l.isScalar = false := by
+  unfold insertSet
+  cases l with
+  | scalar a v => exact ⟨by simp only [mergeSets]; exact NoCrash.merge, by intro m h; simp [mergeSets] at h⟩
+  | map a xs => exact ⟨mergeDicts_nc env _ _ _, fun _ _ => rfl⟩
+  | seq a xs => exact ⟨(mergeLists_nc env _ none _ _).1, fun _ _ => rfl⟩
+  | set a xs => exact ⟨(mergeSets_ok env _ ra rms _).1, fun _ _ => rfl⟩
+
+theorem insertScalar_nc (env : Env) (l : Node) (ra : Option Str) (v : Scalar) :
+    NoCrash (insertScalar env l ra v) := by
+  unfold insertScalar
+  cases l with
+  | scalar a v' => exact NoCrash.ok _
+  | map a xs => exact NoCrash.merge
+  | seq a xs => exact NoCrash.ok _
+  | set a xs =>
+    simp only
+    cases scalarKey? v with
+    | none => exact NoCrash.oom
+    | some k =>
+      simp only
+      cases hm : setMode env ⟨.scalar ra v, none, none⟩ with
+      | error e => exact NoCrash.of_conf (setMode_conf env _) hm
+      | ok mode => cases mode <;> exact NoCrash.ok _
+
+/-- **merge_total.**  For every configuration and every pair of documents the merge ends in a
+document, a merge error (`MergeException`), the configuration error of an invalid rule text, or —
+for set members the model does not cover — `outOfModel`; **no crash outcome is reachable**: neither
+the `AttributeError` of a tag read from a scalar, nor the `TypeError`s of `id_key in ele` /
+`set.add(container)`. -/
+theorem merge_total (cfg : Config) (l r : Node) : NoCrash (mergeWith cfg l r) := by
+  unfold mergeWith
+  split
+  · exact NoCrash.ok _
+  · split
+    · exact NoCrash.ok _
+    · simp only
+      cases r with
+      | map ra res =>
+        exact rootTagSync_nc l _ (insertDict_nc _ l ra res).1 (insertDict_nc _ l ra res).2
+      | seq ra ritems =>
+        exact rootTagSync_nc l _ (insertList_nc _ l ra ritems).1 (insertList_nc _ l ra ritems).2
+      | set ra rms =>
+        exact rootTagSync_nc l _ (insertSet_nc _ l ra rms).1 (insertSet_nc _ l ra rms).2
+      | scalar ra v => exact insertScalar_nc _ l ra v
+
+/-! ## policy_precedence -/
+
+/-- **policy_precedence.**  The mode a configuration answers for a node is: the rule registered
+for the node (converted by the enumeration of the node's kind), else the command-line value, else
+the `[defaults]` value, else the built-in default — for each of the four kinds. -/
+theorem policy_precedence {α : Type} (rule : Option RuleName) (conv : RuleName → Except MErr α)
+    (cli dflt : Option α) (builtin : α) :
+    (∀ n, rule = some n → pick rule conv cli dflt builtin = conv n) ∧
+    (∀ v, rule = none → cli = some v → pick rule conv cli dflt builtin = .ok v) ∧
+    (∀ v, rule = none → cli = none → dflt = some v → pick rule conv cli dflt builtin = .ok v) ∧
+    (rule = none → cli = none → dflt = none → pick rule conv cli dflt builtin = .ok builtin) := by
+  refine ⟨?_, ?_, ?_, ?_⟩
+  · intro n h; subst h; rfl
+  · intro v h1 h2; subst h1; subst h2; rfl
+  · intro v h1 h2 h3; subst h1; subst h2; subst h3; rfl
+  · intro h1 h2 h3; subst h1; subst h2; subst h3; rfl
+
+/-- The four `*_merge_mode` methods are instances of `pick` with the built-in defaults
+DEEP / ALL / ALL / UNIQUE. -/
+theorem modes_are_pick (env : Env) (c : Coords) :
+    hashMode env c = pick (ruleFor env c) RuleName.toHash env.cfg.hashCli env.cfg.hashDef .deep ∧
+    arrayMode env c = pick (ruleFor env c) RuleName.toArray env.cfg.arrayCli env.cfg.arrayDef .all ∧
+    aohMode env c = pick (ruleFor env c) RuleName.toAoh env.cfg.aohCli env.cfg.aohDef .all ∧
+    setMode env c = pick (ruleFor env c) RuleName.toSet env.cfg.setCli env.cfg.setDef .unique :=
+  ⟨rfl, rfl, rfl, rfl⟩
+
+/-! ## Content -/
+
+/-- **array_all_is_append** (and the other array policies): a simple list merged into a list is
+`Spec.arrayMerge` of the applicable mode — ALL is `l ++ r`. -/
+theorem array_merge_eq_spec (env : Env) (la ra : Option Str) (l r : List Node) (c : Coords)
+    (mode : ArrayOpt) (hm : arrayMode env c = .ok mode) :
+    ∃ a, mergeSimple env (.seq la l) ra r c = .ok (.seq a (arrayMerge mode l r)) := by
+  unfold mergeSimple
+  simp only [hm]
+  cases mode <;> exact ⟨_, rfl⟩
+
+theorem array_all_is_append (env : Env) (la ra : Option Str) (l r : List Node) (c : Coords)
+    (hm : arrayMode env c = .ok .all) :
+    mergeSimple env (.seq la l) ra r c = .ok (.seq la (l ++ r)) := by
+  unfold mergeSimple; simp only [hm]
+
+/-- Sets merge as `Spec.setMerge` of the applicable mode. -/
+theorem set_merge_eq_spec (env : Env) (la ra : Option Str) (l r : List Key) (c : Coords)
+    (mode : SetOpt) (hm : setMode env c = .ok mode) :
+    ∃ a, mergeSets env (.set la l) ra r c = .ok (.set a (setMerge mode l r)) := by
+  unfold mergeSets
+  simp only [hm]
+  cases mode <;> exact ⟨_, rfl⟩
+
+/-- **rhs_scalar_overrides.**  Under a key present on both sides a right-hand scalar replaces
+whatever the left-hand side holds, and a right-hand scalar document replaces a left-hand scalar
+document — under every configuration. -/
+theorem rhs_scalar_overrides (cfg : Config) (env : Env) (lv : Node) (c : Coords) (a : Option Str) (v : Scalar) :
+    mergeVal env lv c (.scalar a v) = .ok (.scalar a v) ∧
+    (∀ a' v', v ≠ .null → v' ≠ .null → mergeWith cfg (.scalar a' v') (.scalar a v) = .ok (.scalar a v)) := by
+  refine ⟨by simp only [mergeVal], ?_⟩
+  intro a' v' hv hv'
+  cases v <;> cases v' <;> simp_all [mergeWith, insertScalar]
+
+/-- Structurally impossible merges at the root are merge errors — never a crash, never a silently
+different document (the `Spec.Impossible` pairs; for an Array into a Set the first container found
+is refused unless an earlier scalar element is outside the model's sets). -/
+theorem impossible_is_merge_error (cfg : Config) (l r : Node) (h : Impossible l r)
+    (hset : ∀ a ms, l = .set a ms → ∀ ra items, r = .seq ra items → ∀ x ∈ items, ∀ a' v, x = .scalar a' v → (scalarKey? v).isSome) :
+    mergeWith cfg l r = .error .merge := by
+  cases l with
+  | map a xs =>
+    cases r with
+    | seq ra items => simp [mergeWith, insertList, rootTagSync]
+    | scalar ra v =>
+      have hv : v ≠ .null := h
+      cases v <;> simp_all [mergeWith, insertScalar]
+    | map ra res => exact absurd h (by simp [Impossible])
+    | set ra rms => exact absurd h (by simp [Impossible])
+  | scalar a v =>
+    cases r with
+    | seq ra items =>
+      have hv : v ≠ .null := h
+      cases v <;> simp_all [mergeWith, insertList, rootTagSync]
+    | map ra res =>
+      have hv : v ≠ .null := h
+      cases v <;> simp_all [mergeWith, insertDict, rootTagSync]
+    | set ra rms =>
+      have hv : v ≠ .null := h
+      cases v <;> simp_all [mergeWith, insertSet, rootTagSync, mergeSets]
+    | scalar ra v' => exact absurd h (by simp [Impossible])
+  | seq a xs => cases r <;> exact absurd h (by simp [Impossible])
+  | set a xs =>
+    cases r with
+    | map ra res => simp [mergeWith, insertDict, rootTagSync]
+    | seq ra items =>
+      obtain ⟨x, hx, hxs⟩ : ∃ x ∈ items, x.isScalar = false := h
+      have hsc := hset a xs rfl ra items rfl
+      have key : ∀ (its : List Node) (acc : List Key), (∃ x ∈ its, x.isScalar = false) →
+          (∀ x ∈ its, ∀ a' v, x = .scalar a' v → (scalarKey? v).isSome) →
+          listToSet its acc = .error .merge := by
+        intro its
+        induction its with
+        | nil => intro acc ⟨x, hx, _⟩; cases hx
+        | cons y ys ih =>
+          intro acc ⟨x, hx, hxs⟩ hall
+          simp only [listToSet]
+          cases y with
+          | scalar a' v =>
+            have hk := hall (.scalar a' v) (List.mem_cons_self) a' v rfl
+            simp only [setAdd]
+            cases hsk : scalarKey? v with
+            | none => rw [hsk] at hk; cases hk
+            | some k =>
+              simp only
+              refine ih _ ?_ (fun z hz => hall z (List.mem_cons_of_mem _ hz))
+              rcases List.mem_cons.mp hx with rfl | hx'
+              · simp [Node.isScalar] at hxs
+              · exact ⟨x, hx', hxs⟩
+          | seq _ _ => rfl
+          | map _ _ => rfl
+          | set _ _ => rfl
+      simp [mergeWith, insertList, rootTagSync, key items [] ⟨x, hx, hxs⟩ hsc]
+    | set ra rms => exact absurd h (by simp [Impossible])
+    | scalar ra v => exact absurd h (by simp [Impossible])
+
+/-! ## Key order and key set of a deep hash merge -/
+
+/-- **merge_order_ok_partial** (left-hand half of `OrderOK`, proved in full generality).
+FULL STATEMENT: `mergeDicts env (.map la l) par r = .ok (.map a m) → OrderOK l r m`.
+PROVED HERE: the first conjunct of `OrderOK` — the keys of `l` appear in `m` in their original
+relative order (exactly: the sub-list of `m`'s keys that are keys of `l` *is* `l`'s key list), for
+every configuration, every `l` and `r`.  MISSING: the second conjunct (keys only in `r` appear in
+`r`'s order); it needs the positional invariant "no right-only key sits at or after `buffer_pos`",
+not finished in this round.  The correspondence run checks both halves on the real code and
+compares the exact interleaving with the model. -/
+theorem merge_order_ok_partial (env : Env) (la : Option Str) (l : List (Key × Node)) (par : Node)
+    (r : List (Key × Node)) (m : Node) (h : mergeDicts env (.map la l) par r = .ok m) :
+    ∃ a es, m = .map a es ∧ (keys es).filter (fun k => (keys l).contains k) = keys l := by
+  unfold mergeDicts dictWrap at h
+  simp only at h
+  cases hl : dictLoop env par r ⟨l, [], 0⟩ with
+  | error e => rw [hl] at h; cases h
+  | ok st =>
+    rw [hl] at h
+    cases h
+    refine ⟨la, _, rfl, ?_⟩
+    have hinv : InvL (keys l) ⟨l, [], 0⟩ := by
+      refine ⟨?_, by intro kv hkv; cases hkv⟩
+      simp only
+      apply List.filter_eq_self.mpr
+      intro k hk; simpa using hk
+    have := dictLoop_InvL env par (keys l) r _ _ hl hinv
+    simp only [keys, List.map_append, List.filter_append] at this ⊢
+    have hb : (st.buffer.map (·.1)).filter (fun k => (l.map (·.1)).contains k) = [] := by
+      apply List.filter_eq_nil_iff.mpr
+      intro k hk
+      obtain ⟨kv, hkv, rfl⟩ := List.mem_map.mp hk
+      simpa [keys] using this.2 kv hkv
+    rw [hb, List.append_nil]; exact this.1
+
+/-- **hash_deep_keys** (left-hand inclusion) / **lhs_only_content_preserved** (keys): every key of
+the left-hand mapping is a key of the merged mapping. -/
+theorem lhs_keys_kept (env : Env) (la : Option Str) (l : List (Key × Node)) (par : Node)
+    (r : List (Key × Node)) (m : Node) (h : mergeDicts env (.map la l) par r = .ok m) :
+    ∃ a es, m = .map a es ∧ ∀ k ∈ keys l, k ∈ keys es := by
+  obtain ⟨a, es, hm, hf⟩ := merge_order_ok_partial env la l par r m h
+  refine ⟨a, es, hm, ?_⟩
+  intro k hk
+  rw [← hf] at hk
+  exact (List.mem_filter.mp hk).1
+
+/-! ## Witnesses: the hypotheses are met by concrete values, and the interleaving of the design note -/
+
+def i (n : Int) : Node := .scalar none (.int n)
+def sk (s : String) : Key := .str s.toList
+
+/-- `{a,b,c} ⊕ {x,b,y,c,z}` gives `a,x,b,c,y,z` (buffered right-only keys are inserted at the shared
+key's right-hand index, clamped). -/
+example : (mergeWith {} (.map none [(sk "a", i 1), (sk "b", i 2), (sk "c", i 3)])
+    (.map none [(sk "x", i 1), (sk "b", i 2), (sk "y", i 1), (sk "c", i 3), (sk "z", i 1)])).map
+      (fun n => match n with | .map _ es => es.map (·.1) | _ => [])
+    = .ok [sk "a", sk "x", sk "b", sk "c", sk "y", sk "z"] := by decide +kernel
+
+/-- `a: 5 ⊕ a: []` is a merge error (fix C05-1), not the `AttributeError` of the pinned code. -/
+example : mergeWith {} (.map none [(sk "a", i 5)]) (.map none [(sk "a", .seq none [])]) = .error .merge := by
+  decide +kernel
+
+/-- arrays=unique: `[1,2] ⊕ [3,3] = [1,2,3]` (fix C05-3). -/
+example : mergeWith { arrayCli := some .unique } (.seq none [i 1, i 2]) (.seq none [i 3, i 3])
+    = .ok (.seq none [i 1, i 2, i 3]) := by decide +kernel
+
+/-- the AoH option does not leak onto scalars (fix C05-2): `a: 1 ⊕ a: 2` under aoh=left is `a: 2`. -/
+example : mergeWith { aohCli := some .left } (.map none [(sk "a", i 1)]) (.map none [(sk "a", i 2)])
+    = .ok (.map none [(sk "a", i 2)]) := by decide +kernel
+
+/-- a rule for the node wins over the command-line value. -/
+example : mergeWith { hashCli := some .deep, rules := [([.key (sk "a")], .left)] }
+    (.map none [(sk "a", .map none [(sk "x", i 1)])]) (.map none [(sk "a", .map none [(sk "y", i 2)])])
+    = .ok (.map none [(sk "a", .map none [(sk "x", i 1)])]) := by decide +kernel
+
+end Ypv.C05
